@@ -1397,3 +1397,92 @@ Proof.
     destruct (is_pc (r_op q)); [|left; exists u'; auto].
     apply upd_upload_in in Hin as (u & Hu' & [->|[Hid ->]]); left; exists u; repeat split; auto.
 Qed.
+
+(* ================================================================== *)
+(** * T2: shape of a transfer that has not started *)
+
+Lemma status_post s k tr s' :
+  step s (EStatus k tr true) = Some s' ->
+  exists x c', find_task k (tasks s) = Some x /\ find_coord (k_t x) (coords s') = Some c' /\
+               c_status c' = (if tr then Running else Queued).
+Proof.
+  intros H. cbn [step] in H. apply busy_false_of_if in H as [_ H].
+  destruct (find_task k (tasks s)) as [x|] eqn:Ex; [|discriminate].
+  destruct (find_coord (k_t x) (coords s)) as [c|] eqn:Ec; [|discriminate].
+  destruct (_ && _) eqn:Eg in H; [|discriminate].
+  unfold bind in H. destruct (on_coord s (k_t x) _) as [s1|] eqn:E1; [|discriminate].
+  pose proof (on_task_coords _ _ _ _ H) as Hc. sub_on_coord E1. injection Hf as <-.
+  exists x. exists (c_with c0 (if tr then Running else Queued) (c_exc c0)).
+  split; [reflexivity|]. rewrite Hc. cbn [coords set_coords].
+  rewrite (find_coord_upd_const (k_t x) (c_with c0 (if tr then Running else Queued) (c_exc c0)) _ c0 (k_t x) Hfc eq_refl), Z.eqb_refl.
+  split; reflexivity.
+Qed.
+
+Definition unstarted (s : state) (t : Z) : Prop :=
+  match find_coord t (coords s) with None => True | Some c => c_status c = NotStarted end.
+
+Record ns_shape (s : state) (t : Z) : Prop := {
+  ns_tasks : forall k x, find_task k (tasks s) = Some x -> k_t x = t -> k_kind x = KSubmission /\ k_phase x = 0;
+  ns_reqs : forall q, In q (reqs s) -> r_t q <> t;
+  ns_uploads : forall u, In u (uploads s) -> u_t u <> t
+}.
+
+Definition ns_inv (s : state) : Prop := forall t, unstarted s t -> ns_shape s t.
+
+Lemma cstep_notstarted_back c c' : cstep c c' -> c_status c' = NotStarted -> c_status c = NotStarted.
+Proof. intros H. destruct H; cbn; auto; try discriminate. destruct H0 as [-> | ->]; discriminate. Qed.
+
+Lemma unstarted_back s e s' t : step s e = Some s' -> unstarted s' t -> unstarted s t.
+Proof.
+  intros H Hu. unfold unstarted in *.
+  destruct (find_coord t (coords s)) as [c|] eqn:Ec; [|exact I].
+  destruct (coord_persists_step _ _ _ _ _ H Ec) as (c' & Hc' & Hcs). rewrite Hc' in Hu.
+  eapply cstep_notstarted_back; eauto.
+Qed.
+
+Lemma unstarted_not_done s t : unstarted s t -> coord_done s t = false.
+Proof.
+  unfold unstarted, coord_done. destruct (find_coord t (coords s)); [|reflexivity]. now intros ->.
+Qed.
+
+Lemma ns_inv_step s e s' : T1_inv s -> ns_inv s -> step s e = Some s' -> ns_inv s'.
+Proof.
+  intros (_ & _ & IL & IA) I H t Hu'.
+  pose proof (unstarted_back _ _ _ _ H Hu') as Hu. destruct (I t Hu) as [It Iq Iu].
+  pose proof (unstarted_not_done _ _ Hu') as Hnd'.
+  constructor.
+  - (* tasks *)
+    intros k x' Hx' Hkt.
+    destruct (task_origin _ _ _ _ _ H Hx') as [(x & Hx & Hts)|(_ & t0 & g & a & fin & deps & kind & -> & ->)].
+    + statics Hts. rewrite St in Hkt. destruct (It k x Hx Hkt) as [Hk Hp]. rewrite Skind.
+      destruct Hts; cbn [k_phase with_st with_flags with_phase with_permit with_assoc with_released] in *;
+        auto; try lia.
+      * (* sub exc *) subst t0. apply setexc_done in H. rewrite Hkt in H. congruence.
+      * (* status *) destruct (status_post _ _ _ _ H) as (x0 & c' & Hx0 & Hc' & Hst).
+        assert (x0 = x) by congruence. subst x0. rewrite Hkt in Hc'.
+        unfold unstarted in Hu'. rewrite Hc' in Hu'. rewrite Hu' in Hst. destruct tr; discriminate.
+    + cbn [k_t fresh_task] in Hkt. subst t0. cbn. split; [|reflexivity].
+      destruct (Z.eq_dec kind KSubmission) as [Hk|Hk]; [exact Hk|exfalso].
+      destruct (submit_inv _ _ _ _ _ _ _ _ _ H) as [_ _ Hns _ _ _ _ _ _ _ _].
+      destruct (Hns Hk) as (_ & p & Hp & Hpt & _ & Hph). destruct (It a p Hp Hpt) as [Hpk Hpp].
+      specialize (Hph Hpk). lia.
+  - (* reqs *)
+    intros q' Hq'.
+    destruct (req_origin _ _ _ _ H Hq') as [(q & Hq & _ & _ & Ht & _)|(a & r & op & t0 & uid & -> & ->)].
+    + rewrite Ht. auto.
+    + cbn [r_t]. intros ->.
+      destruct (s3begin_inv _ _ _ _ _ _ _ H) as [_ _ Hab Htk _ _ _].
+      destruct (s3op_eqb op OpAbort) eqn:Eop.
+      * apply s3op_eqb_eq in Eop. destruct (Hab Eop) as (c & Hc & Hrun).
+        assert (Hd : is_done (c_status c) = true).
+        { apply (IA t c Hc). left. apply (IL t c Hc). congruence. }
+        unfold unstarted in Hu. rewrite Hc in Hu. rewrite Hu in Hd. discriminate.
+      * assert (Hne : op <> OpAbort) by (intros ->; discriminate).
+        destruct (Htk Hne) as (x & Hx & Hxt & _ & _ & Hsub).
+        destruct (It a x Hx Hxt) as [Hk Hp]. destruct (Hsub Hk) as [Hp2 _]. lia.
+  - (* uploads *)
+    intros u' Hu0.
+    destruct (upload_origin _ _ _ _ H Hu0) as [(u & Hin & _ & Ht)|(r & uid & q & -> & Hq & _ & ->)].
+    + rewrite Ht. auto.
+    + cbn [u_t]. apply Iq. eapply find_req_in; eauto.
+Qed.
